@@ -41,7 +41,7 @@ var checks = map[string]checkDef{
 	"C15": {pkg: "verif/mc/checks/c15"},
 	"C16": {pkg: "verif/mc/checks/c16", shapes: []string{"mini", "person", "document", "flat3"}},
 	"C17": {pkg: "verif/mc/checks/c17"},
-	"C18": {pkg: "verif/mc/checks/c18", shapes: []string{"mini", "person"}},
+	"C18": {pkg: "verif/mc/checks/c18", shapes: []string{"mini", "person", "document", "flat3"}},
 }
 
 var mcDir = func() string {
